@@ -468,6 +468,11 @@ def gen_code_substitution():
     return pytrans.gen_code_substitution()
 
 
+def gen_code_cmdline():
+    from . import pytrans
+    return pytrans.gen_code_cmdline()
+
+
 GENERATORS = {
     "Schema": gen_schema,
     "Logger": gen_logger,
@@ -478,6 +483,7 @@ GENERATORS = {
     "Loader": gen_loader,
     "CodeDatatypes": gen_code_datatypes,
     "CodeSubstitution": gen_code_substitution,
+    "CodeCmdline": gen_code_cmdline,
 }
 
 
